@@ -546,17 +546,8 @@ func (x *Exec) applyContract(st *State, fn *ssa.Function, spec *contract.FuncSpe
 		}
 		x.assume(st, env.evalBool(e.E))
 	}
-	if spec.Attrs["noreturn"] != "" {
-		return nil, false
-	}
-	for _, d := range strings.Fields(spec.Attrs["noreturn_for"]) {
-		if d == x.Driver {
-			st.Died = true
-			return nil, false // the unwinding driver stops the path here
-		}
-	}
 	if x.LogCalls {
-		rec := CallRec{Fn: specKey(fn, spec), Args: args, Res: res}
+		rec := CallRec{Fn: specKey(fn, spec), Args: args, Res: res, PC: st.PC, Pre: old}
 		for _, a := range args {
 			var elems []*T
 			if sl, ok := a.(VSlice); ok {
@@ -573,6 +564,15 @@ func (x *Exec) applyContract(st *State, fn *ssa.Function, spec *contract.FuncSpe
 		}
 		x.Calls = append(x.Calls, rec)
 	}
+	if spec.Attrs["noreturn"] != "" {
+		return nil, false
+	}
+	for _, d := range strings.Fields(spec.Attrs["noreturn_for"]) {
+		if d == x.Driver {
+			st.Died = true
+			return nil, false // the unwinding driver stops the path here
+		}
+	}
 	return res, true
 }
 
@@ -583,6 +583,8 @@ type CallRec struct {
 	Args     []Val
 	ArgElems [][]*T // element terms of slice arguments (at call time)
 	Res      Val
+	PC       *T     // path condition at the call (after the callee's postconditions were assumed)
+	Pre      *State // state in which the call was made
 }
 
 func (x *Exec) freshSliceResult(st *State, env *Env, attr string, rt types.Type, site string) Val {
